@@ -1,12 +1,15 @@
 import Pyrealb.Model.Basic
 /-! Model of `src/pyrealb/Lexicon.py` (whole file) and of the lexicon lookup of `Terminal.setLemma`
-(`src/pyrealb/Terminal.py:29-35, 94-121`) and `utils.terminal` (`utils.py:146-149`).
+(`src/pyrealb/Terminal.py:29-35, 94-121`, after fix 8586a6a) and `utils.terminal` (`utils.py:146-149`).
 
 Process-global state = current language, the two lexicon dicts, the two rule sets.
 A lexicon is a Python `dict` lemma ↦ entry **object**; an entry is a `dict` category-key ↦ value (values are
-opaque here: `"N" ↦ {"tab":"n1",…}` is one value). Because `lexicon[lemma]=newInfos` stores the *caller's*
-dict and `lexicon[lemma].update(newInfos)` mutates the stored one in place, entries are modelled as
-references into a heap of dict objects: two lemmas (or the two lexicons) may hold the same object.
+opaque here: `"N" ↦ {"tab":"n1",…}` is one value). Entries are dict OBJECTS in a heap: `getLemma` and
+`addToLexicon` return the stored object itself and `lexicon[lemma].update(newInfos)` mutates it in place.
+Since fix 3c7823e a new entry is `dict(newInfos)`: a FRESH object holding a shallow copy (the category values
+themselves are shared with the caller's dict; `Lexicon.py` never mutates a value, so values stay opaque).
+A dict argument is therefore either a caller-owned dict, which the library neither stores nor mutates (only its
+content matters: `lit`), or a library object obtained from an earlier call (`obj`), read at call time.
 
 Domain: `newInfos` / the values of the single-dict form / of `newLexicon` are dicts; `lang` is `None`, `"en"`,
 `"fr"` or another string (→ `KeyError`). Non-dict infos (e.g. `{"w": None}`) are outside the model.
@@ -64,7 +67,8 @@ structure State where
   cur : Lang             -- `__lexicon.lang`
   en : Lexicon           -- `__lexicon.lexicon["en"]`
   fr : Lexicon           -- `__lexicon.lexicon["fr"]`
-  heap : Heap            -- the entry objects (and the dicts callers have passed in)
+  heap : Heap            -- the entry objects
+  fresh : Ref            -- identity of the next dict object the library creates
   rulesEn : Nat          -- `__lexicon.rules["en"]` (opaque identity)
   rulesFr : Nat
 
@@ -79,26 +83,24 @@ def State.setLex (st : State) (l : Lang) (lx : Lexicon) : State :=
 
 def State.setHeap (st : State) (h : Heap) : State := { st with heap := h }
 def State.setCur (st : State) (l : Lang) : State := { st with cur := l }
+def State.setFresh (st : State) (r : Ref) : State := { st with fresh := r }
 
 def State.rulesOf (st : State) : Lang → Nat
   | .en => st.rulesEn
   | .fr => st.rulesFr
 
-/-- content of a dict object (an object that was never created reads as empty; `WF` excludes that case) -/
+/-- content of a dict object (an object that does not exist reads as empty; the harness never names one) -/
 def content (h : Heap) (r : Ref) : Entry := (h r).getD []
 
-/-- a dict passed by the caller: its identity, and its content when the caller created it (consulted only
-    the first time the object is seen; afterwards the heap knows its content) -/
-structure DictArg where
-  ref : Ref
-  init : Entry
+/-- a dict passed by the caller -/
+inductive DictArg where
+  | lit (e : Entry)      -- a dict the caller owns: never stored, never mutated by the library; only its content matters
+  | obj (r : Ref)        -- a library object (what `getLemma` / `addToLexicon` returned earlier), read at call time
 
-/-- the object exists from now on (not a Python step: the caller built it before the call) -/
-def touch (h : Heap) (a : DictArg) : Heap :=
-  if (h a.ref).isSome then h else fun r => if r = a.ref then some a.init else h r
-
-/-- what the caller's dict contains at the time of the call -/
-def argContent (st : State) (a : DictArg) : Entry := content (touch st.heap a) a.ref
+/-- what the argument contains at the time of the call -/
+def argContent (st : State) : DictArg → Entry
+  | .lit e => e
+  | .obj r => content st.heap r
 
 /-- operations that do not take `lang` -/
 inductive Ctl where
@@ -137,19 +139,19 @@ def resolve (cur : Lang) : Option LangArg → Except Crash Lang
   | some .fr => .ok .fr
   | some .bad => .error .keyError
 
-/-- `lexicon[lemma]=newInfos` (the caller's object is stored) -/
+/-- `lexicon[lemma]=dict(newInfos)` : a fresh object holding a (shallow) copy is stored -/
 def storeArg (st : State) (l : Lang) (lemma : Lemma) (a : DictArg) : State :=
-  (st.setLex l (dset lemma a.ref (st.lexOf l))).setHeap (touch st.heap a)
+  ((st.setLex l (dset lemma st.fresh (st.lexOf l))).setHeap
+    (fun x => if x = st.fresh then some (argContent st a) else st.heap x)).setFresh (st.fresh + 1)
 
 /-- lines 66-70 of Lexicon.py -/
 def addCore (st : State) (l : Lang) (lemma : Lemma) (a : DictArg) : Ret × State :=
   match dget lemma (st.lexOf l) with
   | some r =>            -- `lexicon[lemma].update(newInfos)` ; `return lexicon[lemma]`
-    let h1 := touch st.heap a
-    let e' := dupdate (content h1 r) (content h1 a.ref)
-    (.dict r e', st.setHeap (fun x => if x = r then some e' else h1 x))
-  | none =>              -- `lexicon[lemma]=newInfos` ; `return lexicon[lemma]`
-    (.dict a.ref (argContent st a), storeArg st l lemma a)
+    let e' := dupdate (content st.heap r) (argContent st a)
+    (.dict r e', st.setHeap (fun x => if x = r then some e' else st.heap x))
+  | none =>              -- `lexicon[lemma]=dict(newInfos)` ; `return lexicon[lemma]` (the new object)
+    (.dict st.fresh (argContent st a), storeArg st l lemma a)
 
 /-- `return lexicon[lemma] if lemma in lexicon else None` : the stored object itself -/
 def getLemmaRet (st : State) (l : Lang) (lemma : Lemma) : Ret :=
@@ -162,7 +164,7 @@ def exec (st : State) (l : Lang) : LOp → Except Crash (Ret × State)
   | .addSingle [] => .error .indexError                    -- `list(lemma.items())[0]`
   | .addSingle ((lemma, a) :: _) => .ok (addCore st l lemma a)
   | .remove lemma => .ok (.none, st.setLex l (ddel lemma (st.lexOf l)))
-  | .update newLex => .ok (.none, newLex.foldl (fun s p => storeArg s l p.1 p.2) st)
+  | .update newLex => .ok (.none, newLex.foldl (fun s p => storeArg s l p.1 p.2) st)   -- one copy per item, in order
   | .getLemma lemma => .ok (getLemmaRet st l lemma, st)
   | .getLexicon => .ok (.lexicon l (dkeys (st.lexOf l)), st)
   | .getRules => .ok (.rules l (st.rulesOf l), st)
@@ -212,11 +214,12 @@ inductive TermLookup where
 
 def ldv : Str := ['l', 'd', 'v']
 
-/-- NB `getLemma(self.lemma)` is called WITHOUT a language (Terminal.py:99): the CURRENT lexicon is read,
-    whatever the language of the terminal. -/
+/-- `getLemma(self.lemma, self.lang())` (Terminal.py:99, since fix 8586a6a): the lexicon of the TERMINAL'S language
+    is read — the language named at construction, else the one current at construction — under the normalised
+    spelling of the lemma. -/
 def lookupForTerminal (st : State) (tl : Option LangArg) (lemma : Lemma) (cat : Cat) : TermLookup :=
   let tlang := termLang st.cur tl
-  match dget (normLemma lemma) (st.lexOf st.cur) with
+  match dget (normLemma lemma) (st.lexOf tlang) with
   | none => .unknown tlang
   | some r =>
     let e := content st.heap r
